@@ -234,7 +234,7 @@ func c14Selector(w *mon.W, s string, corpus *c14Corpus, origin string) {
 				return
 			}
 		}
-	} else if s2 != s {
+	} else if c14Norm(s2) != c14Norm(s) {
 		w.Violate("sel/malformed-part-dropped/"+c14Shape(s), fmt.Sprintf("Parse(%q) succeeds although the text is malformed, and prints as %q: part of the input was silently dropped", s, s2), c)
 	} else {
 		// accepted although the grammar rejects it, and printed back verbatim: every part of the
@@ -242,7 +242,7 @@ func c14Selector(w *mon.W, s string, corpus *c14Corpus, origin string) {
 		// (as read through the accessors) and compare with the text, runs of '?' collapsed.
 		// (integers are compared by value: "[00]" is a spelling of "[0]", nothing is dropped)
 		t := rs.Text()
-		if normInts(collapseQ(t)) != normInts(collapseQ(s)) {
+		if c14Norm(t) != c14Norm(s) {
 			c["segments"] = fmt.Sprint(rs)
 			c["segments_rendered"] = t
 			w.Violate("sel/text-not-reflected-in-segments/"+c14Shape(s), fmt.Sprintf("Parse(%q) succeeds although the text is malformed; its segments %v render as %q: part of the input influences nothing", s, rs, t), c)
@@ -626,6 +626,27 @@ func collapseQ(s string) string {
 		s = strings.ReplaceAll(s, "??", "?")
 	}
 	return s
+}
+
+// c14Norm removes the spellings the printer is allowed to normalise away (they drop no input):
+// runs of '?', the optional mark on an identity segment (".?" is "."), leading zeros of integers.
+func c14Norm(s string) string {
+	s = collapseQ(s)
+	var b strings.Builder
+	inQuote := false
+	for i := 0; i < len(s); i++ {
+		ch := s[i]
+		if ch == '"' {
+			inQuote = !inQuote
+		}
+		b.WriteByte(ch)
+		if !inQuote && ch == '.' {
+			for i+1 < len(s) && s[i+1] == '?' {
+				i++
+			}
+		}
+	}
+	return normInts(b.String())
 }
 
 var intRun = regexp.MustCompile(`-?[0-9]+`)
